@@ -53,3 +53,16 @@ package decode
 //@     set goff := off(r)
 //@     set glen := len(r)
 //@     set called := true
+
+// checkError: "there was an error" is decided by the error alone, whatever the
+// logging mode (with erronly / withnode every successful decode used to be reported
+// as failed, logged with a nil error, and its result thrown away).
+
+//@ func (*Plugin).checkError
+//@   ensures result == !isnil(err)
+//@   callee Error(m, f)
+//@     pure
+//@   callee AsString()
+//@     pure
+//@   callee Sprintf(f, a)
+//@     pure
